@@ -268,6 +268,12 @@ def h_step_info(sym):
     cache = MissCache(cached if hit else None)
     f, port = mk_fetcher(cf, kind, v2, toc, finished, cache)
     f.state = GET_TOC_INFO
+    if sbool(sym, 'early_lookup'):
+        # the table object is consulted before the download has filled it (a stale value packet of the previous session does
+        # that through Param._param_updated): nothing found now, and no effect on what is found later
+        assert toc.get_element_by_id(0) is None and toc.get_element_by_complete_name('cg.cn') is None
+        assert toc.get_element_id('cg.cn') is None
+        sym.goal('looked-up-before-download')
     n = sym.int('n', 0, maxn)
     dev = TocDevice(port, [], crc=sym.int('crc', 0, 2 ** 32 - 1))
     pk = dev.info_reply(v2, n)
@@ -281,6 +287,7 @@ def h_step_info(sym):
         return
     if hit:
         assert toc.toc is cached and len(finished) == 1 and len(cf.sent) == 0
+        check_lookups(toc, 1)
         sym.goal('cache-hit')
     elif n == 0:
         assert toc.toc == {} and len(finished) == 1 and len(cf.sent) == 0, 'empty table must finish at once'
@@ -570,7 +577,7 @@ HARNESSES = [
     for k in ('log', 'param') for g, v in _GEN
 ] + [
     Harness(f'step-info[{k},{g}]', h_step_info, quick=dict(kind=k, v2=v), timeout=(120, 600),
-            goals=('ignored', 'cache-hit', 'empty', 'first-requested'))
+            goals=('ignored', 'cache-hit', 'empty', 'first-requested', 'looked-up-before-download'))
     for k in ('log', 'param') for g, v in _GEN
 ] + [
     Harness(f'download[{k},{f}]', h_download, quick=dict(kind=k, maxsize=2, faults=f),
